@@ -177,7 +177,10 @@ func c20E2E(c *mon.Ctx, g *pegread.Grammar, batch int) {
 			c.Violation("C20 end-to-end "+what+" entry="+ent, "the shipped parser and grammar.peg interpreted directly disagree on whether the input is accepted", detail())
 			continue
 		}
-		if !reflect.DeepEqual(ref.Val, val) {
+		// the value is compared where the grammar defines it: on accepted
+		// inputs (what Parse hands back next to an error is the engine's
+		// business, not the grammar's)
+		if ref.Accepted() && !reflect.DeepEqual(ref.Val, val) {
 			c.Violation("C20 end-to-end value-differs entry="+ent, "the shipped parser returns a different value from grammar.peg interpreted directly", detail())
 			continue
 		}
@@ -193,9 +196,33 @@ func c20E2E(c *mon.Ctx, g *pegread.Grammar, batch int) {
 			if !ok {
 				c.Count("e2e_error_list_unreadable")
 			} else {
-				same := len(live) == len(ref.Errs)
-				for i := 0; same && i < len(live); i++ {
-					if live[i].off != ref.Errs[i].Offset || (ref.Errs[i].Kind != "encoding" && live[i].msg != ref.Errs[i].Msg) {
+				// compared as SETS of (offset, message): which errors the code
+				// blocks and the encoding rule raise where is the grammar's; their
+				// order and de-duplication are the engine's presentation
+				want := map[string]bool{}
+				for _, e := range ref.Errs {
+					k := fmt.Sprintf("%d/", e.Offset)
+					if e.Kind != "encoding" {
+						k += e.Msg
+					} else {
+						k += "<encoding>"
+					}
+					want[k] = true
+				}
+				got := map[string]bool{}
+				encMsg := ""
+				for _, l := range live {
+					k := fmt.Sprintf("%d/%s", l.off, l.msg)
+					if !want[k] && want[fmt.Sprintf("%d/<encoding>", l.off)] && (encMsg == "" || encMsg == l.msg) {
+						// an encoding error: its text is the engine's
+						encMsg = l.msg
+						k = fmt.Sprintf("%d/<encoding>", l.off)
+					}
+					got[k] = true
+				}
+				same := len(got) == len(want)
+				for k := range want {
+					if !got[k] {
 						same = false
 					}
 				}
